@@ -141,11 +141,47 @@ except Exception as ex:
 print(json.dumps({'violates': out is not None, 'exception': out, 'text': 'a/a/.../a (3000 segments) eq 1'}))
 """
         return {"native_script": script, "input_text": "path with 3000 segments", "required": "AST or library exception"}
+    if r.get("clause") == "post.raise" and "token_type" in r:
+        script = ERROR_HOOK_REPLAY.replace("TOKEN_TYPE", repr(r.get("token_type")))
+        return {"native_script": script, "input_text": f"syntax errors whose offending token is {r.get('token_type')}",
+                "required": "ParsingException / TokenizingException"}
     if r.get("bounded") and r.get("native_script"):
         return {"native_script": r["native_script"], "input_text": r.get("bound"), "required": "== prepend_path(first, rest)"}
     if "tree" in (r.get("witness") or {}):
         return G.production_replay_spec(facts, r)
     return None
+
+
+ERROR_HOOK_REPLAY = r"""
+import json
+from odata_query.grammar import ODataLexer, ODataParser
+from odata_query import exceptions
+SAMPLE = {'NULL': 'null', 'BOOLEAN': 'true', 'INTEGER': '1', 'DECIMAL': '1.5', 'STRING': "'s'", 'GUID': '12345678-1234-1234-1234-123456789abc',
+          'DATE': '2020-01-01', 'TIME': '10:00:00', 'DATETIME': '2020-01-01T10:00:00Z', 'DURATION': "duration'P1D'",
+          'GEOGRAPHY': "geography'P'", 'ODATA_IDENTIFIER': 'x', 'ANY': 'any', 'ALL': 'all', 'NOT': 'not ', 'UMINUS': '-',
+          'ADD': ' add ', 'SUB': ' sub ', 'MUL': ' mul ', 'DIV': ' div ', 'MOD': ' mod ', 'AND': ' and ', 'OR': ' or ',
+          'EQ': ' eq ', 'NE': ' ne ', 'LT': ' lt ', 'LE': ' le ', 'GT': ' gt ', 'GE': ' ge ', 'IN': ' in ', 'WS': ' ',
+          '(': '(', ')': ')', ',': ',', '/': '/', ':': ':', '=': '='}
+tt = TOKEN_TYPE
+texts = []
+if tt is None:
+    texts = ['a eq', '(a', 'f(', 'a/', 'not', 'a in (1,', '-']
+elif tt == '<text>':
+    texts = ['a eq #', '@', 'a eq 1 ;', '"x"', 'a ? b']
+else:
+    s = SAMPLE.get(tt, tt)
+    for pre in ['', '1', 'a', "'x'", '(1)', 'a/', 'a eq 1', 'f(1)', 'a in (1, 2)', 'a/any(x: x eq 1)', 'not a', '1 1', ')', 'a eq']:
+        texts += [pre + s, pre + s + s, pre + s + ' 1', pre + ' ' + s if tt not in ('WS',) else pre + s]
+bad = []
+for t in texts:
+    try:
+        ODataParser().parse(ODataLexer().tokenize(t))
+    except exceptions.ODataException:
+        pass
+    except Exception as ex:
+        bad.append([t, type(ex).__name__ + ': ' + str(ex)[:100]])
+print(json.dumps({'violates': bool(bad), 'problems': bad[:4], 'tried': len(texts)}))
+"""
 
 
 def evidence(facts, results):
